@@ -145,7 +145,14 @@ class CallGraph:
                 c.pending.append((selfty.get("name"), tr))
                 return
             if tr is not None:
-                for g in self.impl_methods.get((tr, nm), []):
+                cands = self.impl_methods.get((tr, nm), [])
+                # the receiver's type is known (a generic helper inlined at a call site that fixed its parameter): only
+                # that type's impl is a target
+                adt = selfty.get("adt")
+                if adt:
+                    own = [g for g in cands if peel(g.d.get("impl_self", {})).get("adt") == adt]
+                    cands = own or cands
+                for g in cands:
                     if g not in c.targets:
                         c.targets.append(g)
             return
